@@ -274,6 +274,16 @@ structure Out (α : Type) where
   asum : α
   comps : List (CompOut α)
 
+/-- the record of one component: `fraction_x == 0` gives `pr_p = 0`, `pr_phi = 1` (ln φ = 0), else the share and ln φ -/
+def compOut (rt b a p vm : α) (c : Comp α) (aa2 : α) : CompOut α :=
+  if isZero c.x then { x := c.x, p := lit 0, lnphi := lit 0 }
+  else { x := c.x, p := c.x * p, lnphi := lnPhi rt b a p vm c.b aa2 }
+
+/-- assemble the result from the mixture sums and the chosen `(P, V_m)` -/
+def outOf (rt : α) (cs : List (Comp α)) (m : Mix α) (p vm : α) : Out α :=
+  { vm := vm, p := p, bsum := m.bsum, asum := m.asum
+    comps := (cs.zip m.aa2).map fun (c, aa2) => compOut rt m.bsum m.asum p vm c aa2 }
+
 /-- mole fractions: a single gas has `fraction_x = 1`; otherwise `moles_x / m_sum` with `m_sum` the running sum
 of the non-zero `moles_x`; `none` = the early `return (OK)` for `m_sum == 0` -/
 def fractions (moles : List α) : Option (List α) :=
@@ -296,15 +306,12 @@ def calcPR (tab : List ((String × String) × α)) (search : Bool) (gs : List (G
     let cs := comps tk gs xs
     let m := mix (binaryFactor tab) cs
     let rt := gasR * tk
-    let (p, vm) : α × α :=
+    let pv : α × α :=
       if isZero vm then
         let p := if p < lit (1 / 10000000000) then lit (1 / 10000000000) else p
         (p, vmOfP rt m.bsum m.asum p)
       else (pOfVm search rt m.bsum m.asum vm, vm)
-    let outs := (cs.zip m.aa2).map fun (c, aa2) =>
-      if isZero c.x then ({ x := c.x, p := lit 0, lnphi := lit 0 } : CompOut α)
-      else { x := c.x, p := c.x * p, lnphi := lnPhi rt m.bsum m.asum p vm c.b aa2 }
-    some { vm := vm, p := p, bsum := m.bsum, asum := m.asum, comps := outs }
+    some (outOf rt cs m pv.1 pv.2)
 
 /-! ## `calc_PR()` of gases.cpp (numerical fixed-volume path, called by `calc_fixed_volume_gas_pressures`) -/
 
@@ -338,12 +345,9 @@ def calcPRnum (tab : List ((String × String) × α)) (search : Bool) (gs : List
   let cs := comps tk gs xs
   let m := mix (binaryFactor tab) cs
   let rt := gasR * tk
-  let (p0, vm) := doubleLoop rt m.bsum m.asum 2200 (vol / msum)
-  let p := searchP search rt m.bsum m.asum vm p0
+  let d := doubleLoop rt m.bsum m.asum 2200 (vol / msum)
+  let p := searchP search rt m.bsum m.asum d.2 d.1
   let p := if p ≤ lit 0 then lit 1 else p
-  let outs := (cs.zip m.aa2).map fun (c, aa2) =>
-    if isZero c.x then ({ x := c.x, p := lit 0, lnphi := lit 0 } : CompOut α)
-    else { x := c.x, p := c.x * p, lnphi := lnPhi rt m.bsum m.asum p vm c.b aa2 }
-  some { vm := vm, p := p, bsum := m.bsum, asum := m.asum, comps := outs }
+  some (outOf rt cs m p d.2)
 
 end PhreeqcVerif.PR
